@@ -288,6 +288,11 @@ def check_edges_and_held(res, facts, prop):
     cap = facts.const_int('synth_utils::mono_midi_receiver::HELD_DOWN_NOTE_BUFFER_LEN')
     global LEN_CLASSES
     LEN_CLASSES = [('empty', (0, 0)), ('one', (1, 1)), ('some', (2, cap - 1)), ('full', (cap, cap))]
+    if prop == 'C04':
+        # the statement covers streams with up to 32 outstanding note-ons: a note-on may only be dropped (list full) beyond that
+        res.ob('R-HELD', 'held-note list holds the 32 outstanding notes the statement covers', cap >= 32,
+               'capacity of the held-note list = %d: the note-on that finds the list full is dropped, which the statement allows only beyond 32 outstanding notes' % cap,
+               where_of(facts, RX + '::parse'), key='R-HELD:capacity')
     msgs = []
     if prop == 'C06':
         msgs = [('cc%d' % n, 'ControlChange', dict(cc=n)) for n in sorted(CC_TABLE) if n != 123]
